@@ -370,11 +370,14 @@ func (w *World) rebindSearch(it *Item, timeoutMs int, aliases map[string]string,
 		return nil
 	}
 	x := m[1]
-	if !hintOnlyName(it, x) {
-		return nil
-	}
 	fn := w.findFunc(it.Pkg, it.Name)
 	if fn == nil {
+		return nil
+	}
+	if !hintOnlyName(it, x) {
+		// a name of the specification itself (a renamed parameter or named result): not rebound.
+		// The contract does not record parameter positions, so a binding found by search could
+		// make the contract follow a change that swaps the roles of two parameters.
 		return nil
 	}
 	used := map[string]bool{}
@@ -690,6 +693,7 @@ func (e *Env) verifyFunc(it *Item) {
 		fvals = append(fvals, v)
 		vars[fv.Name()] = v
 	}
+	e.applyAliases(vars)
 	entry := st.clone()
 	ctx := &SpecCtx{e: e, st: entry, vars: vars, pkg: pkg}
 	for _, c := range it.Clauses {
@@ -787,6 +791,7 @@ func (e *Env) verifyFunc(it *Item) {
 			pv[k] = v
 		}
 		bindResults(pv, fn, site.vals)
+		e.applyAliases(pv)
 		fr.specVars = pv
 		e.cur = fr
 		e.useAt(fr, "return", site.st)
